@@ -6,7 +6,7 @@ V = os.path.dirname(os.path.dirname(os.path.abspath(__file__)))
 TB = ("TLC 1.8.0 and the CommunityModules Json/IOUtils modules; the Go toolchain, net/http(+httptest), grpc-go, protobuf-go "
       "(dynamicpb/protodesc) as used by the harness; spec/*.tla as the statement of the property")
 
-RPCNOTE = "Direct drive through Mux.ServeHTTP (httptest); HTTP/2 framing for gRPC emulated with ProtoMajor=2 and recorder trailers; the WebSocket transport (C05, C06, C08) runs on a real loopback server with a raw RFC 6455 client; real grpc-go clients are used by the socket drivers (C10, C11, C12, C15, C20). A third of the non-gRPC requests are marked HTTP/2. " + TB
+RPCNOTE = "Direct drive through Mux.ServeHTTP (httptest); HTTP/2 framing for gRPC emulated with ProtoMajor=2 and recorder trailers; the WebSocket transport (C05, C06, C08) runs on a real loopback server with a raw RFC 6455 client; every gRPC case a real client can send is mirrored through larking.NewServer with a grpc-go client (proto grpcsock) and judged by the same formulas; real grpc-go clients are also used by the socket drivers (C10, C11, C12, C15, C20). A third of the non-gRPC requests are marked HTTP/2. " + TB
 
 CHECKS = {
  "C01": dict(engine="Router", level="model_checking", design="3.1, 6/C01",
